@@ -333,10 +333,31 @@ def seeds_shard(ctx: Ctx):
         for i in range(len(S[e])):
             cases.append({"ext": e, "seed": i, "mutation": None, "route": None, "full": True})
             cases.append({"ext": e, "seed": i, "mutation": None, "route": EXTS[(EXTS.index(e) + 1 + i) % len(EXTS)], "full": False})
+    # numeric attributes of the XML parts (repeat counts, sizes, indexes) set to extreme values, part by part: allocation and conversion
+    # failures (MemoryError, OverflowError, ValueError) must come out as extraction errors like everything else
+    import re
+    import zipfile
+    sweep = 0
+    kinds = sorted(mutate._NUMBER_KINDS) if ctx.thorough else ["number-huge", "number-negative"]
+    for e in EXTS:
+        if CONTAINER.get(e) != "zip":
+            continue
+        picked = [i for i, (nm, _) in enumerate(S[e]) if nm.startswith("gen/")] + [i for i, (nm, _) in enumerate(S[e]) if not nm.startswith("gen/")][:1 if not ctx.thorough else 4]
+        for i in picked:
+            try:
+                z = zipfile.ZipFile(io.BytesIO(S[e][i][1]))
+                members = [zi.filename for zi in z.infolist() if zi.filename.endswith((".xml", ".opf", ".xhtml")) and zi.file_size < 2_000_000 and re.search(rb'="\d{1,9}"', z.read(zi.filename))]
+            except Exception:  # noqa
+                continue
+            for m in sorted(members, key=lambda n: (n.count("/"), n))[:3 if not ctx.thorough else 8]:
+                for k in kinds:
+                    cases.append({"ext": e, "seed": i, "mutation": [{"op": "zip-xml", "member": 0.0, "name": m, "kind": k}], "route": None, "full": False})
+                    sweep += 1
     for i, c in enumerate(cases):
         if i % ctx.nshards == ctx.shard:
             part.violations += evaluate(ctx, S, c, part)
-    part.exhaustive["every seed through all entry points + one cross-routing each"] = len(cases)
+    part.exhaustive["every seed through all entry points + one cross-routing each"] = len(cases) - sweep
+    part.exhaustive["numeric attributes of XML parts set to extreme values (seed x part x value)"] = sweep
     return part
 
 
